@@ -339,6 +339,9 @@ func Driver() int {
 			ev.Coverage["explanation"] = info.Rule
 		}
 		evDir := filepath.Join(verifDir, "evidence")
+		if alt := os.Getenv("VERIF_EVIDENCE_DIR"); alt != "" {
+			evDir = alt // development aid (seeded-change runs must not overwrite the committed evidence)
+		}
 		os.MkdirAll(evDir, 0o755)
 		if err := writeJSON(filepath.Join(evDir, prop+".json"), ev); err != nil {
 			fmt.Printf("HARNESS-TROUBLE: writing evidence: %v\n", err)
